@@ -119,6 +119,11 @@ pub struct Case {
     /// which load entry point / data request: "" = Font::load, otherwise load_requested_data with
     /// all | nolib | nofeat | none | onlylib | nolayers
     pub req: String,
+    /// the rest of an ordinary legacy UFO, all of it valid and typical: `mmk` = groups.plist with MetricsMachine
+    /// groups (one-letter and longer stems, both sides, a plain group) and a kerning.plist referring to them,
+    /// `glyphs` = four glyphs, one of them renamed in contents.plist only (its glif still carries the old name),
+    /// `linfo` = glyphs/layerinfo.plist
+    pub files: String,
 }
 
 impl Case {
@@ -126,6 +131,9 @@ impl Case {
         let mut t = vec![self.fmt.to_string()];
         if !self.req.is_empty() {
             t.push(format!("req={}", self.req));
+        }
+        if !self.files.is_empty() {
+            t.push(format!("files={}", self.files));
         }
         for (k, v) in &self.attrs {
             t.push(format!("{}={}", k, v.token()));
@@ -169,7 +177,9 @@ impl Case {
         let uh = |s: &str| String::from_utf8(unhex(s)).unwrap();
         for t in &toks[1..] {
             let (k, v) = t.split_once('=').unwrap();
-            if k == "req" {
+            if k == "files" {
+                c.files = v.to_string();
+            } else if k == "req" {
                 c.req = v.to_string();
             } else if k == "lib" {
                 c.lib = true;
@@ -247,6 +257,51 @@ impl Case {
         }
         if let Some(f) = &self.fea {
             std::fs::write(dir.join("features.fea"), f).unwrap();
+        }
+        let has = |f: &str| self.files.split(',').any(|x| x == f);
+        if has("mmk") {
+            std::fs::write(
+                dir.join("groups.plist"),
+                format!(
+                    "{}<dict>\n<key>@MMK_L_A</key><array><string>A</string></array>\n<key>@MMK_R_O</key><array><string>O</string></array>\n<key>@MMK_L_long_stem</key><array><string>B</string></array>\n<key>@MMK_R_other.alt</key><array><string>C</string></array>\n<key>plain</key><array><string>A</string><string>B</string></array>\n</dict></plist>\n",
+                    PLIST_HEAD
+                ),
+            )
+            .unwrap();
+            std::fs::write(
+                dir.join("kerning.plist"),
+                format!(
+                    "{}<dict>\n<key>@MMK_L_A</key><dict><key>@MMK_R_O</key><integer>-20</integer><key>C</key><integer>5</integer></dict>\n<key>B</key><dict><key>@MMK_R_other.alt</key><integer>7</integer></dict>\n<key>@MMK_L_long_stem</key><dict><key>A</key><real>-3.5</real></dict>\n</dict></plist>\n",
+                    PLIST_HEAD
+                ),
+            )
+            .unwrap();
+        }
+        if has("glyphs") {
+            // the glyph under the key `O` was renamed in contents.plist only: its glif still says `Oslash.old`
+            let entries = [("A", "A_.glif", "A"), ("B", "B_.glif", "B"), ("C", "C_.glif", "C"), ("O", "O_.glif", "Oslash.old")];
+            let mut c = String::from(PLIST_HEAD);
+            c.push_str("<dict>\n");
+            for (key, file, glif_name) in entries.iter() {
+                c.push_str(&format!("<key>{}</key><string>{}</string>\n", key, file));
+                std::fs::write(
+                    dir.join("glyphs").join(file),
+                    format!(
+                        "<?xml version=\"1.0\" encoding=\"UTF-8\"?>\n<glyph name=\"{}\" format=\"1\">\n<advance width=\"500\"/>\n<outline>\n<contour>\n<point x=\"0\" y=\"0\" type=\"line\"/>\n<point x=\"100\" y=\"0\" type=\"line\"/>\n<point x=\"50\" y=\"100\" type=\"line\"/>\n</contour>\n</outline>\n</glyph>\n",
+                        glif_name
+                    ),
+                )
+                .unwrap();
+            }
+            c.push_str("</dict></plist>\n");
+            std::fs::write(dir.join("glyphs").join("contents.plist"), c).unwrap();
+        }
+        if has("linfo") {
+            std::fs::write(
+                dir.join("glyphs").join("layerinfo.plist"),
+                format!("{}<dict><key>color</key><string>1,0,0,1</string></dict></plist>\n", PLIST_HEAD),
+            )
+            .unwrap();
         }
     }
 }
@@ -329,9 +384,21 @@ pub fn observe(ctx: &Ctx, c: &Case) -> String {
     }
 }
 
+static EMITTED: std::sync::atomic::AtomicUsize = std::sync::atomic::AtomicUsize::new(0);
+
 fn emit(out: &mut dyn Write, ctx: &Ctx, c: &Case) {
     let obs = observe(ctx, c);
     writeln!(out, "C14 {} => {}", c.tokens(), obs.trim_end()).unwrap();
+    // every second case a second time as an ORDINARY legacy UFO (MetricsMachine groups and kerning, glyphs with
+    // one renamed in contents.plist only, layerinfo): the expectation "loads, converted, validates, saves" is
+    // about a whole legacy font, not about a font-info-only tree
+    let n = EMITTED.fetch_add(1, std::sync::atomic::Ordering::Relaxed);
+    if c.files.is_empty() && n % 2 == 0 {
+        let mut c2 = c.clone();
+        c2.files = ["mmk,glyphs,linfo", "mmk", "glyphs", "mmk,glyphs"][(n / 2) % 4].to_string();
+        let obs = observe(ctx, &c2);
+        writeln!(out, "C14 {} => {}", c2.tokens(), obs.trim_end()).unwrap();
+    }
 }
 
 pub fn replay(toks: &[&str]) -> String {
